@@ -26,12 +26,12 @@
    search trees (other shape: [C11_state_equal_tree_refuted]) and the ring (reloaded unwrapped:
    [C11_state_equal_ring_refuted], [C11_ring]); for these the observations are proved equal.
 
-   Status of the iteration clause for BTree: the machine-level B-tree iterator theorem does not exist
-   yet (Proofs/IterTreeBT.v), so [C11_roundtrip_partial] excludes BTree from [equiv_iter] only,
-   [C11_roundtrip_content] covers all 21 kinds without the clause, and [C11_roundtrip_given_bt_iter]
-   is the full statement for all kinds from the premise [bt_iter_ok] (one [exact] once that theorem
-   exists).  Likewise [C11_same_future_all_partial] covers every kind, BTree under [bt_script_ok];
-   [C11_same_future] (stacks, queues, ring, heaps and the other state-equal kinds) is unconditional. *)
+   [C11_roundtrip] and [C11_same_future_all] are the full statements for all 21 kinds, with no
+   premise.  The iteration clause for BTree rests on the machine-level B-tree iterator theorems of
+   Proofs/IterTreeMachine.v ([C11_bt_iter_ok], [C11_bt_script_ok]).  The earlier partial forms are kept
+   under their names: [C11_roundtrip_partial] (BTree excluded from [equiv_iter] only),
+   [C11_roundtrip_content] (all kinds, without the clause), [C11_roundtrip_given_bt_iter] and
+   [C11_same_future_all_partial] (from the premises [bt_iter_ok] / [bt_script_ok], now theorems). *)
 From Coq Require Import ZArith List Bool.
 From Gods Require Import Common.Cmp Common.ListAux Model.Ops Model.Machine Proofs.JsonProofs.
 From Gods Require Model.Ring.
@@ -54,14 +54,30 @@ Proof. exact decode_to_json. Qed.
 Print Assumptions C11_decode_to_json.
 
 (* ---------- the round trip ---------- *)
-(* FULL statement of the property (all 21 kinds):
-     forall c ops, config_ok c ->
-       let s := run c ops in
-       let '(s', ok) := from_json c (decode_of (to_json c s)) (init c) in
-       ok = true /\ equivalent c s s'.
-   Proved: everything except [equiv_iter] (iteration order) for ckind c = BTree, which needs the
-   pending machine-level B-tree iterator theorem; it follows by one [exact] from
-   [C11_roundtrip_given_bt_iter] below once [bt_iter_ok] is a theorem. *)
+(* the property as worded, all 21 kinds: the reloaded container is equivalent to the original -
+   same Size / Values / Keys / entries / ToJSON / Get / GetKey / Contains / Peek / Full
+   ([equiv_content]) and same forward and backward iteration ([equiv_iter]) *)
+Theorem C11_roundtrip : forall c ops, config_ok c ->
+  let s := run c ops in
+  let '(s', ok) := from_json c (decode_of (to_json c s)) (init c) in
+  ok = true /\ equivalent c s s'.
+Proof. exact C11_roundtrip_all_proof. Qed.
+Print Assumptions C11_roundtrip.
+
+(* the B-tree iterator theorems it rests on *)
+Theorem C11_bt_iter_ok : forall c ops, ckind c = BTree -> 3 <= corder c ->
+  each_of c (run c ops) = Some (entries_of c (run c ops)) /\
+  each_back c (run c ops) = Some (rev (entries_of c (run c ops))).
+Proof. exact bt_iter_ok_proof. Qed.
+Print Assumptions C11_bt_iter_ok.
+
+Theorem C11_bt_script_ok : forall c ops1 ops2 cs, ckind c = BTree -> 3 <= corder c ->
+  entries_of c (run c ops1) = entries_of c (run c ops2) ->
+  run_iter c (run c ops1) cs = run_iter c (run c ops2) cs.
+Proof. exact bt_script_ok_proof. Qed.
+Print Assumptions C11_bt_script_ok.
+
+(* the weaker forms proved before the B-tree iterator theorem existed (kept under their names) *)
 Theorem C11_roundtrip_partial : forall c ops, config_ok c ->
   let s := run c ops in
   let '(s', ok) := from_json c (decode_of (to_json c s)) (init c) in
@@ -134,8 +150,8 @@ Print Assumptions C11_same_future.
    queue (ring) / same entries (search trees, TreeSet, TreeBidiMap)" between states satisfying the
    reachable-state invariant [jinv]; it is preserved by EVERY operation with equal answers
    ([C11_oeq_step]), the reloaded container is [oeq] to the original, hence all futures agree.
-   For BTree the answers of [Iter] scripts need the pending B-tree iterator theorem, in the form
-   [bt_script_ok]: forall c ops1 ops2 cs, ckind c = BTree -> 3 <= corder c ->
+   For BTree the answers of [Iter] scripts need the B-tree iterator theorem ([C11_bt_script_ok]), in
+   the form [bt_script_ok]: forall c ops1 ops2 cs, ckind c = BTree -> 3 <= corder c ->
      entries_of c (run c ops1) = entries_of c (run c ops2) ->
      run_iter c (run c ops1) cs = run_iter c (run c ops2) cs. *)
 Theorem C11_oeq_step : forall c s1 s2 o, config_ok c -> oeq c s1 s2 -> iter_eq c s1 s2 ->
@@ -153,6 +169,17 @@ Theorem C11_same_future_all_partial : forall c ops more, config_ok c -> (ckind c
   (ckind c <> BTree -> equiv_iter c (run_from c s more) (run_from c s' more)).
 Proof. exact C11_same_future_all_proof. Qed.
 Print Assumptions C11_same_future_all_partial.
+
+(* every kind, no premise: ANY further operation sequence gets the same answers from the reloaded
+   container, and the two containers stay equivalent (iteration order included) *)
+Theorem C11_same_future_all : forall c ops more, config_ok c ->
+  let s := run c ops in
+  let s' := fst (from_json c (decode_of (to_json c s)) (init c)) in
+  results_from c s' more = results_from c s more /\
+  oeq c (run_from c s more) (run_from c s' more) /\
+  equivalent c (run_from c s more) (run_from c s' more).
+Proof. exact C11_same_future_unconditional_proof. Qed.
+Print Assumptions C11_same_future_all.
 
 (* "the same subsequent Pop/Dequeue sequence" *)
 Theorem C11_same_removals : forall c ops n, config_ok c -> future_kind (ckind c) = true ->
